@@ -233,30 +233,46 @@ class BoboDecider(BoboEngineTask,
             (2) halted runs kept if not halted locally; and
             (3) updated runs kept if not completed or halted locally.
         """
+        # Within one message, complete takes precedent over halt and update,
+        # and halt takes precedent over update (e.g., a message that merges
+        # a backlog of older changes with newer ones).
+        ids_completed = set(comp.run_id for comp in completed)
+        ids_halted = set(ch.run_id for ch in halted)
+
+        halted = [ch for ch in halted
+                  if ch.run_id not in ids_completed]
+
+        updated = [cu for cu in updated
+                   if cu.run_id not in ids_completed and
+                   cu.run_id not in ids_halted]
+
         if (
                 self._caching and
                 self._cache_completed is not None and
                 self._cache_halted is not None
         ):
+            # Runs are compared by run ID: remote runs are new objects and
+            # are never identical to the cached ones.
+            ids_cache_completed = set(
+                cc.run_id for cc in self._cache_completed)
+            ids_cache_halted = set(
+                ch.run_id for ch in self._cache_halted)
+
             # Keep completed IDs if not completed locally
             # Complete takes precedent over halt and update
-            completed = [
-                comp for comp in completed
-                if (
-                    not any(comp.run_id == cache_comp.run_id
-                            for cache_comp in self._cache_completed)
-                )]
+            completed = [comp for comp in completed
+                         if comp.run_id not in ids_cache_completed]
 
             # Keep halted IDs if not completed and not halted locally
             # Halt takes precedent over update
             halted = [ch for ch in halted
-                      if ch not in self._cache_completed and
-                      ch not in self._cache_halted]
+                      if ch.run_id not in ids_cache_completed and
+                      ch.run_id not in ids_cache_halted]
 
             # Keep updated IDs if not completed and not halted locally
             updated = [cu for cu in updated
-                       if cu not in self._cache_completed and
-                       cu not in self._cache_halted]
+                       if cu.run_id not in ids_cache_completed and
+                       cu.run_id not in ids_cache_halted]
 
         return completed, halted, updated
 
